@@ -359,3 +359,58 @@ def type_renames(adts, impls):
             if actual != cname:
                 out[actual] = cname
     return out
+
+
+# ---------------------------------------------------------------------- fields of private structs by their type
+# (frozen from the tree the rules were written against: for each private struct, the fields whose type is unique within
+# the struct.  `?` stands for any crate-private type — those may be renamed themselves.)  A private struct of today's
+# tree is matched to an entry when it has exactly one field of each of the entry's types; its fields of those types are
+# then presented under the canonical names.  Fields that share their type with a sibling (the String names of the
+# emitter, the two positions of the index-change record) are not covered: the rules that read them do so by what is
+# stored in them.
+FIELD_CANON = [
+    {"&data::machine::Machine": "machine", "&data::validated_file::File": "file", "std::vec::Vec<data::validated_file::Rule>": "rules"},
+    {"std::collections::HashMap<(data::machine::StateIndex,data::table::Quasiterminal),(&data::machine::StateItem,data::table::Action)>": "actions",
+     "std::collections::HashMap<(data::machine::StateIndex,&str),data::table::Goto>": "gotos", "&?": "context"},
+    {"&str": "grammar_src", "&data::table::Table": "table", "&data::validated_file::File": "file",
+     "std::collections::HashMap<data::DollarlessTerminalName,std::string::String>": "node_to_terminal_method_names"},
+    {"&str": "src", "std::vec::Vec<parser::Token>": "out", "?": "state"},
+    {"?": "context", "std::vec::Vec<data::machine::State>": "states", "std::collections::HashSet<data::machine::Transition>": "transitions",
+     "std::collections::VecDeque<data::machine::StateIndex>": "queue"},
+    {"std::string::String": "start_nonterminal_name", "std::vec::Vec<data::validated_file::Rule>": "rules", "std::collections::HashMap<std::string::String,?>": "first_sets"},
+    {"data::oset::Oset<data::DollarlessTerminalName>": "terminals", "bool": "contains_epsilon"},
+    {"&[data::validated_file::Rule]": "rules", "&[data::validated_file::Nonterminal]": "nonterminals"},
+]
+
+
+def _norm_ty(t, priv):
+    t = re.sub(r"'\w+\s*", "", t)
+    t = re.sub(r"<\s*>", "", t)
+    for p in priv:
+        t = t.replace(p, "?")
+    t = re.sub(r"\?<[^<>]*>", "?", t)
+    return t.replace(" ", "")
+
+
+def field_renames(adts):
+    """{(owner path, field name today): canonical field name} for private structs matched by field types (FIELD_CANON)"""
+    priv = sorted({a["path"] for a in adts if not a.get("pub")}, key=len, reverse=True)
+    out = {}
+    for a in adts:
+        if a.get("kind") != "Struct" or a.get("pub") or len(a.get("variants", [])) != 1 or "/parser.rs" in str((a.get("span") or {}).get("at", "")):
+            continue
+        fs = [(f_["name"], _norm_ty(f_["ty"].get("s", ""), priv)) for f_ in a["variants"][0]["fields"]]
+        tys = [t for _, t in fs]
+        best = None
+        for entry in FIELD_CANON:
+            if all(tys.count(t) == 1 for t in entry) and (len(entry) >= 3 or len(tys) == len(entry)):
+                if best is None or len(entry) > len(best):
+                    best = entry
+                elif len(entry) == len(best):
+                    best = False
+        if not best:
+            continue
+        for (n, t) in fs:
+            if t in best and n != best[t]:
+                out[(a["path"], n)] = best[t]
+    return out
